@@ -35,6 +35,11 @@ type VerifKey struct {
 	Stream []VerifStreamEntry
 	HasTTL bool
 	TTL    int64 // absolute unix seconds
+	// Hidden is implementation state that the logical content does not determine (AVL tree shape,
+	// the last id a stream remembers after trimming): it is part of the search's state key so that
+	// logically equal states with different internals are not merged, never of the comparison
+	// with the model.
+	Hidden string
 }
 
 type VerifDumpT struct {
@@ -152,9 +157,22 @@ func (m *MemDb) VerifDump() *VerifDumpT {
 		case *SortedSet[*SortedSetNode]:
 			vk.Type = "zset"
 			vk.ZSet, d.Invariants = verifZSet(e.k, v, d.Invariants)
+			if v.Btree != nil {
+				var shape func(n *Node[*SortedSetNode], depth int) string
+				shape = func(n *Node[*SortedSetNode], depth int) string {
+					if n == nil || depth > 64 {
+						return "."
+					}
+					return "(" + shape(n.left, depth+1) + fmt.Sprint(len(n.Value.Names)) + shape(n.right, depth+1) + ")"
+				}
+				vk.Hidden = shape(v.Btree.root, 0)
+			}
 		case *Stream:
 			vk.Type = "stream"
 			vk.Stream, d.Invariants = verifStream(e.k, v, d.Invariants)
+			if v.hasLast {
+				vk.Hidden = "last=" + v.last.Format()
+			}
 		default:
 			vk.Type = fmt.Sprintf("unknown(%T)", e.v)
 		}
